@@ -163,3 +163,55 @@ def run : List String → String
   | _ => "err unknown"
 
 end Slab
+
+/-! ### cloud/rain files: a header record, then per time step a (time, date) record and one record per
+(layer, variable) -/
+namespace CloudRain
+open Words
+
+structure CStep where
+  time : Word
+  date : Word
+  slabs : List (List Word)        -- (layer, variable) order: for each layer CLOUD, [PRECIP | RAIN, SNOW, GRAUPEL], COD
+deriving Repr, DecidableEq
+
+structure CFile where
+  desc : List Word                -- FILEDESC, 4 characters per word
+  nx : Word
+  ny : Word
+  nz : Word
+  steps : List CStep
+deriving Repr, DecidableEq
+
+def records (f : CFile) : List (List Word) :=
+  (f.desc ++ [f.nx, f.ny, f.nz]) :: (f.steps.map (fun s => [s.time, s.date] :: s.slabs)).flatten
+
+def encode (f : CFile) : List Word := encodeRecs (records f)
+
+end CloudRain
+
+namespace Slab
+open Wire Words
+
+def parseCStep (s : String) : Option CloudRain.CStep :=
+  match s.splitOn ":" with
+  | [t, d, sl] => match parseHexWord t, parseHexWord d with
+    | some t, some d =>
+      (if sl = "-" then some [] else (sl.splitOn ",").mapM parseWords).map (fun l => ⟨t, d, l⟩)
+    | _, _ => none
+  | _ => none
+
+/-- `bin cr-enc desc=<hex> nx=<n> ny=<n> nz=<n> steps=<t:d:slab,slab|…>` -/
+def runCR (toks : List String) : String :=
+  let kv := toks.filterMap (fun t => match t.splitOn "=" with
+    | [k, v] => some (k, v)
+    | _ => none)
+  let get (k : String) : Option String := (kv.find? (·.1 == k)).map (·.2)
+  match (get "desc").bind parseWords, (get "nx").bind parseNat, (get "ny").bind parseNat, (get "nz").bind parseNat, get "steps" with
+  | some d, some nx, some ny, some nz, some st =>
+    (match (if st = "-" then some [] else (st.splitOn "|").mapM parseCStep) with
+     | some steps => "ok " ++ showWords (CloudRain.encode ⟨d, nx, ny, nz, steps⟩)
+     | none => "err parse-steps")
+  | _, _, _, _, _ => "err parse"
+
+end Slab
